@@ -68,7 +68,7 @@ impl Check for C13 {
         "exploration"
     }
     fn rule_text(&self) -> String {
-        "arrival histories of up to 200 attempts over 1-40 keys, limit 1-20, duration from {1 ms, 1 s, 8 s, 60 s}, inter-arrival times zero / sub-window / exactly d / d+-1 ns / 2d / 4d / long idle gaps, bursts and many one-shot keys, run against the real RateLimiter under tokio virtual time; each evaluation also re-runs the history with rejected attempts duplicated, and per key in isolation. Non-trivial = at least one attempt was rejected and at least one window rolled; distinct = distinct hash of the (key, decision) sequence with coarse timing class.".into()
+        "arrival histories of up to 200 attempts over 1-40 keys (a sixth of them address scans where nearly every attempt uses a fresh key), limit 1-20, duration from {1 ms, 1 s, 8 s, 60 s}, inter-arrival times zero / sub-window / exactly d / d+-1 ns / 2d / 4d / long idle gaps, bursts and many one-shot keys, run against the real RateLimiter under tokio virtual time; each evaluation also re-runs the history with rejected attempts duplicated, and per key in isolation. Non-trivial = at least one attempt was rejected and at least one window rolled; distinct = distinct hash of the (key, decision) sequence with coarse timing class.".into()
     }
     fn assumptions(&self) -> Vec<String> {
         vec![
@@ -93,6 +93,8 @@ impl Check for C13 {
         let nmax = if rng.chance(1, 4) { 200 } else { 40 };
         let n = rng.range(1, nmax);
         let style = rng.below(4);
+        // address scans / rotating addresses: (almost) every attempt comes from a key never seen before
+        let scan = rng.chance(1, 6);
         let mut ops = vec![];
         let mut oneshot = 1000u32;
         for _ in 0..n {
@@ -111,7 +113,7 @@ impl Check for C13 {
                     _ => rng.range(2 * d, 6 * d),
                 },
             };
-            let key = if rng.chance(1, 10) {
+            let key = if rng.chance(1, 10) || (scan && rng.chance(19, 20)) {
                 oneshot += 1;
                 oneshot
             } else {
